@@ -31,7 +31,7 @@ ASSUMPTIONS_COMMON = [
     "working tree, not a transcription); callees under contract are replaced by their contracts",
     "the VC generator (/verif/vcgen: proxies, contract stubs, path exploration) is trusted; guarded by the "
     "selftest mutation corpus and the native differential cross-check",
-    "torch/jax backends, *_bwd autodiff rules, tqdm progress bars and device plumbing are out of scope "
+    "torch/jax backends, *_bwd autodiff rules, tqdm progress bars and device moves are out of scope (a rule's result must still carry the device of its operands) "
     "(only the NumPy backend is installed)",
 ]
 
